@@ -15,6 +15,8 @@
 package sparseindex
 
 import (
+	"math"
+
 	"github.com/openGemini/openGemini/engine/hybridqp"
 	"github.com/openGemini/openGemini/lib/binaryfilterfunc"
 	"github.com/openGemini/openGemini/lib/errno"
@@ -107,23 +109,52 @@ func (kc *KeyConditionImpl) genRPNElementByVal(
 ) error {
 	rpnElem := &RPNElement{keyColumn: idx}
 	value := NewFieldRef(cols, idx, 0)
+	// the literal is stored in a column of the key's data type, so it must be converted to that type.
+	// A literal that cannot be represented in the key's type cannot be used for pruning.
+	usable := true
+	dataType := cols[idx].dataType
 	switch rhs := rhs.(type) {
 	case *influxql.StringLiteral:
-		value.cols[idx].column.AppendString(rhs.Val)
+		if dataType == influx.Field_Type_String || dataType == influx.Field_Type_Tag {
+			value.cols[idx].column.AppendString(rhs.Val)
+		} else {
+			usable = false
+		}
 	case *influxql.NumberLiteral:
-		value.cols[idx].column.AppendFloat(rhs.Val)
+		switch {
+		case dataType == influx.Field_Type_Float:
+			value.cols[idx].column.AppendFloat(rhs.Val)
+		case dataType == influx.Field_Type_Int && rhs.Val == math.Trunc(rhs.Val) && math.Abs(rhs.Val) < 1<<53:
+			value.cols[idx].column.AppendInteger(int64(rhs.Val))
+		default:
+			usable = false
+		}
 	case *influxql.IntegerLiteral:
-		value.cols[idx].column.AppendInteger(rhs.Val)
+		switch dataType {
+		case influx.Field_Type_Int:
+			value.cols[idx].column.AppendInteger(rhs.Val)
+		case influx.Field_Type_Float:
+			value.cols[idx].column.AppendFloat(float64(rhs.Val))
+		default:
+			usable = false
+		}
 	case *influxql.BooleanLiteral:
-		value.cols[idx].column.AppendBoolean(rhs.Val)
+		if dataType == influx.Field_Type_Boolean {
+			value.cols[idx].column.AppendBoolean(rhs.Val)
+		} else {
+			usable = false
+		}
 	default:
 		return errno.NewError(errno.ErrRPNElement, rhs)
 	}
 	if value.cols[idx].column.Len > 1 {
 		value.row = value.cols[idx].column.Len - 1
 	}
-	if ok := genRPNElementByOp(op, value, rpnElem); ok {
+	if usable && genRPNElementByOp(op, value, rpnElem) {
 		kc.rpn = append(kc.rpn, rpnElem)
+	} else {
+		// an atom the index cannot evaluate may be true anywhere
+		kc.rpn = append(kc.rpn, &RPNElement{op: rpn.AlwaysTrue})
 	}
 	return nil
 }
@@ -326,9 +357,11 @@ func (kc *KeyConditionImpl) checkRangeLeftRightBound(
 	if leftBounded && rightBounded {
 		rgs[prefixSize] = NewRange(leftKeys[prefixSize], rightKeys[prefixSize], false, false)
 	} else if leftBounded {
-		rgs[prefixSize] = createLeftBounded(leftKeys[prefixSize], false, dataTypes[prefixSize] == influx.Field_Type_Unknown)
+		// the bound refers to a row of the index record: keep the range open instead of
+		// turning it into a closed one, which would rewrite the index value in place.
+		rgs[prefixSize] = NewRange(leftKeys[prefixSize], POSITIVE_INFINITY, false, dataTypes[prefixSize] == influx.Field_Type_Unknown)
 	} else if rightBounded {
-		rgs[prefixSize] = createRightBounded(rightKeys[prefixSize], false, dataTypes[prefixSize] == influx.Field_Type_Unknown)
+		rgs[prefixSize] = NewRange(NEGATIVE_INFINITY, rightKeys[prefixSize], dataTypes[prefixSize] == influx.Field_Type_Unknown, false)
 	}
 	for i := prefixSize + 1; i < keySize; i++ {
 		if dataTypes[i] == influx.Field_Type_Unknown {
